@@ -402,9 +402,9 @@ PROPERTY = {
     ],
     "subchecks": [
         SubCheck("alias_grid", check_detector, enumerate=enum_alias_grid, nontrivial=lambda L: "overwrite+2-later-updates" in L, shards_quick=16, shards_thorough=16, exhaustive=True, describe=_desc),
-        SubCheck("stream_x", check_detector, strategy=strat_detector(["ADWIN", "CUSUM", "PageHinkley", "KdqTreeStreaming", "PCACD"]), nontrivial=lambda L: "nontrivial" in L, quick=500, thorough=10000, shards_quick=8, describe=_desc),
-        SubCheck("stream_y", check_detector, strategy=strat_detector(["ADWINAccuracy", "DDM", "EDDM", "STEPD", "LinearFourRates"]), nontrivial=lambda L: "overwrite+2-later-updates" in L, quick=200, thorough=4000, shards_quick=4, describe=_desc),
-        SubCheck("batch", check_detector, strategy=strat_detector(["KdqTreeBatch", "HDDDM", "CDBD", "NNDVI"]), nontrivial=lambda L: "nontrivial" in L, quick=600, thorough=12000, shards_quick=16, describe=_desc),
-        SubCheck("injectors", check_injector, strategy=strat_injector, nontrivial=lambda L: "non-empty-window" in L, quick=800, thorough=15000, shards_quick=4),
+        SubCheck("stream_x", check_detector, strategy=strat_detector(["ADWIN", "CUSUM", "PageHinkley", "KdqTreeStreaming", "PCACD"]), nontrivial=lambda L: "nontrivial" in L, quick=500, thorough=30000, shards_quick=8, describe=_desc),
+        SubCheck("stream_y", check_detector, strategy=strat_detector(["ADWINAccuracy", "DDM", "EDDM", "STEPD", "LinearFourRates"]), nontrivial=lambda L: "overwrite+2-later-updates" in L, quick=200, thorough=12000, shards_quick=4, describe=_desc),
+        SubCheck("batch", check_detector, strategy=strat_detector(["KdqTreeBatch", "HDDDM", "CDBD", "NNDVI"]), nontrivial=lambda L: "nontrivial" in L, quick=600, thorough=36000, shards_quick=16, describe=_desc),
+        SubCheck("injectors", check_injector, strategy=strat_injector, nontrivial=lambda L: "non-empty-window" in L, quick=800, thorough=45000, shards_quick=4),
     ],
 }
